@@ -173,3 +173,32 @@ def lemma_transcription_no_offset_swap(ri: Arr(Real, None, 2), rp: Arr(Real, Non
     Q1, S1, G1 = onset_precision_recall_f1(ri, ei, on_tol, strict, 1.0)
     Q2, S2, G2 = onset_precision_recall_f1(ei, ri, on_tol, strict, 1.0)
     ensures(P1 == R2, R1 == P2, F1 == F2, Q1 == S2, S1 == Q2, G1 == G2, label='swap')
+
+
+@lemma("C02")
+def lemma_transcription_perfect(ri: Arr(Real, None, 2), rp: Arr(Real, None), on_tol: Real, p_tol: Real, ratio: Opt(Real), min_tol: Real):
+    """an exact copy is matched note for note (distances are 0; np.around(0, 4) = 0 is the one library fact used)"""
+    requires(valid_notes(ri, rp, ri, rp), length(ri) > 0, on_tol >= 0, p_tol >= 0, min_tol >= 0, is_none(ratio) or val(ratio) > 0, rnd4(0.0) == 0.0)
+    n = length(ri)
+    mm_diagonal(n, n, note_rel(ri, rp, ri, rp, on_tol, p_tol, ratio, min_tol, False))
+    mm_diagonal(n, n, onset_rel(ri, ri, on_tol, False))
+    P, R, F, A = precision_recall_f1_overlap(ri, rp, ri, rp, on_tol, p_tol, ratio, min_tol, False, 1.0)
+    Q, S, G = onset_precision_recall_f1(ri, ri, on_tol, False, 1.0)
+    ensures(P == 1, R == 1, F == 1, Q == 1, S == 1, G == 1, label='perfect')
+
+
+@lemma("C08")
+def lemma_transcription_shift(ri: Arr(Real, None, 2), rp: Arr(Real, None), ei: Arr(Real, None, 2), ep: Arr(Real, None), ri2: Arr(Real, None, 2),
+                              ei2: Arr(Real, None, 2), d: Real, on_tol: Real, p_tol: Real, ratio: Opt(Real), min_tol: Real, strict: Bool):
+    """adding the same offset to every onset and offset of both annotations changes no score"""
+    requires(valid_notes(ri, rp, ei, ep), valid_notes(ri2, rp, ei2, ep), length(ri2) == length(ri), length(ei2) == length(ei))
+    requires(forall(0, length(ri), lambda i: ri2[i, 0] == ri[i, 0] + d and ri2[i, 1] == ri[i, 1] + d))
+    requires(forall(0, length(ei), lambda j: ei2[j, 0] == ei[j, 0] + d and ei2[j, 1] == ei[j, 1] + d))
+    requires(on_tol >= 0, p_tol >= 0, min_tol >= 0, is_none(ratio) or val(ratio) > 0)
+    n = length(ri)
+    m = length(ei)
+    mm_monotone(n, m, note_rel(ri, rp, ei, ep, on_tol, p_tol, ratio, min_tol, strict), note_rel(ri2, rp, ei2, ep, on_tol, p_tol, ratio, min_tol, strict))
+    mm_monotone(n, m, note_rel(ri2, rp, ei2, ep, on_tol, p_tol, ratio, min_tol, strict), note_rel(ri, rp, ei, ep, on_tol, p_tol, ratio, min_tol, strict))
+    P1, R1, F1, A1 = precision_recall_f1_overlap(ri, rp, ei, ep, on_tol, p_tol, ratio, min_tol, strict, 1.0)
+    P2, R2, F2, A2 = precision_recall_f1_overlap(ri2, rp, ei2, ep, on_tol, p_tol, ratio, min_tol, strict, 1.0)
+    ensures(P1 == P2, R1 == R2, F1 == F2, label='shift')
